@@ -264,7 +264,12 @@ class PathLossBase:
             # Distances given as integers: calculate in double precision
             # (numpy would calculate in half precision for 8 bit integers)
             d = d.astype(float)
-        PL = self._calc_deterministic_path_loss_dB(d, **kargs)
+        if np.ndim(d) == 0 and d == 0:
+            # A single distance of zero is the extreme case of a distance
+            # which is too small (an array gives -inf for it as well)
+            PL = -math.inf
+        else:
+            PL = self._calc_deterministic_path_loss_dB(d, **kargs)
         if self.use_shadow_bool is True:  # pragma: no cover
             # Shadowing modeled by a Gaussian Distribution (in dB)
             if isinstance(d, np.ndarray):
